@@ -24,10 +24,11 @@ def showState (s : State) : String :=
   let us := (List.range s.nVal).flatMap fun v => (List.range s.nAcc).filterMap fun d =>
     let n := s.ubdEntries d v
     let bal := ((s.ubd.filter (fun u => u.1 == d && u.2.1 == v)).map (fun u => u.2.2.2)).foldl (· + ·) 0
-    if n != 0 then some s!"{d}:{v}:{n}:{bal}" else none
+    let hs := ((s.ubd.filter (fun u => u.1 == d && u.2.1 == v)).map (fun u => u.2.2.1)).eraseDups
+    if n != 0 then some s!"{d}:{v}:{n}:{bal}:{"/".intercalate (hs.map toString)}" else none
   let rds := (List.range s.nVal).flatMap fun src => (List.range s.nVal).flatMap fun dst => (List.range s.nAcc).filterMap fun d =>
-    let n := (s.redel.filter (fun r => r.1 == d && r.2.1 == src && r.2.2.1 == dst)).length
-    if n != 0 then some s!"{d}:{src}:{dst}:{n}" else none
+    let es := s.redel.filter (fun r => r.1 == d && r.2.1 == src && r.2.2.1 == dst)
+    if es.length != 0 then some s!"{d}:{src}:{dst}:{es.length}:{"/".intercalate (es.map (fun r => toString r.2.2.2))}" else none
   s!"h={s.height} " ++ " ".intercalate vs ++
     s!" A({",".intercalate al}) G({",".intercalate gs}) U({",".intercalate us}) Rd({",".intercalate rds})" ++
     -- bank side: bonded pool, not-bonded pool, distribution module account (relative to genesis), community pool
